@@ -96,6 +96,11 @@ class Variant:
             return self.index == other.index and self.val == other.val
         return False
 
+    def __hash__(self) -> int:
+        # Defining __eq__ alone makes the class unhashable, but variants are
+        # legal set elements and mapping keys (set<variant<...>>).
+        return hash((self.index, self.val))
+
 
 class Codec:
     """The base class for codecs."""
